@@ -39,6 +39,9 @@ def programs(env, tier):
     out.append((1, [(a1[0], 0), (anc, 0), (a1[4], 0)]))
     out.append((2, [(a1[0], 0), (anc, 1), (("CNOT",), 0), (a1[10], 1)]))
     out.append((2, [(anc, 0), (a1[9], 1), (("CZ_Heralded",), 0), (anc, 1)]))
+    anc2 = ("ANC2", env.R[1])
+    out.append((1, [(a1[9], 0), (anc2, 0), (a1[4], 0)]))
+    out.append((2, [(anc2, 1), (a1[0], 0), (("CNOT", 0), 0), (anc, 0)]))
     # three qubits: GHZ-type and a CCZ state with complex phases
     out.append((3, [(a1[0], 0), (("CNOT_Heralded",), 0), (("CNOT",), 1), (a1[4], 2)]))
     out.append((3, [(a1[0], 0), (a1[0], 1), (a1[0], 2), (("CCZ",), 0), (a1[6], 0), (a1[9], 1), (a1[7], 2)]))
@@ -77,9 +80,11 @@ def run_tomography(n, prog, vin, env, acc, order=None):
     rho_exp = np.outer(psi, psi.conj())
     received = []
 
+    scale = (1.0, 1.0 / 9, 4096.0)[(len(prog) + sum(vin)) % 3]      # raw success-probability weights / counts-like totals
+
     def experiment(circuits):
         received.extend(circuits)
-        return [tomo.outcome_frequencies(c, n, vin) for c in circuits]
+        return [tomo.outcome_frequencies(c, n, vin, scale) for c in circuits]
 
     acc.tick("executions"); acc.tick("transitions")
     saved = None
